@@ -19,7 +19,8 @@
 //!   `q<k>` write budget of every stream (back-pressure; grants by `W<id>:<k>` events), `u<k>` / `h<k>` initial credit for
 //!   opening uni / bidi streams (grants by `G<n>` / `H<n>`), `t` send_trailers, `x` stop_sending after the first recv_data
 //!   result, `y` stop_stream instead of finish, `k<n>` server calls shutdown(n) after the first accepted request and keeps
-//!   accepting, `s` split() the request stream, `d` client drops its SendRequest handle after the last request,
+//!   accepting, `s` split() the request stream, `d` client drops its SendRequest handle after the last request, `c` every client
+//!   request task uses its own clone of the SendRequest handle (with `d`: original and clones are dropped early),
 //!   `e` (exploration only, NOT the documented pattern) recv_data once and then recv_trailers.
 //! * events: the SimQuic mini-language (`U<id>`, `B<id>`, `<id>:c:<hex>`, `<id>:F`, `<id>:R<code>`, `<id>:S<code>`,
 //!   `X<code>`, `T`, `I`) plus `~` = run the executor to quiescence now, and `<id>:z:<byte>x<count>` = a chunk of
@@ -166,6 +167,8 @@ struct Opts {
     split: bool,
     /// client: the SendRequest handle is dropped after the last request was sent
     drop_sr: bool,
+    /// client: every request task works on its own clone of the SendRequest handle
+    clone_sr: bool,
     /// NOT the documented pattern (exploration only): recv_data once, then recv_trailers
     early_trailers: bool,
     /// WebTransport server role: read mode r<k> futures AsyncRead / o<k> tokio AsyncRead, on accept_uni (default) or accept_bi
@@ -191,6 +194,7 @@ fn parse_opts(s: &str) -> Option<Opts> {
         shutdown: None,
         split: false,
         drop_sr: false,
+        clone_sr: false,
         early_trailers: false,
         read_futures: None,
         read_tokio: None,
@@ -208,6 +212,7 @@ fn parse_opts(s: &str) -> Option<Opts> {
             "y" => o.stop_send = true,
             "s" => o.split = true,
             "d" => o.drop_sr = true,
+            "c" => o.clone_sr = true,
             "e" => o.early_trailers = true,
             "ab" => o.wt_bidi = true,
             _ => {
@@ -625,9 +630,19 @@ fn spawn_client(ex: &mut Exec, w: &Shared, o: Opts, log: &Log) {
                     return String::new();
                 }
             };
-            // SimOpener is not Clone: the single SendRequest handle is passed from request task to request task
-            // and finally stays in the queue (dropping the last handle would close the connection locally)
-            q.put(sr);
+            if o.clone_sr {
+                // one clone per request task; the original is dropped right away (`d`) or kept to the end
+                for _ in 0..o.nreq {
+                    q.put(sr.clone());
+                }
+                if !o.drop_sr {
+                    q.put(sr);
+                }
+            } else {
+                // the single SendRequest handle is passed from request task to request task and finally stays in the
+                // queue (dropping the last handle closes the connection locally)
+                q.put(sr);
+            }
             let e = call!(log, "d", "poll_close", "c", poll_fn(|cx| conn.poll_close(cx)));
             log.end("d", &format!("err:{}", cerr(&e)));
             std::future::pending::<()>().await;
@@ -645,7 +660,14 @@ fn spawn_client(ex: &mut Exec, w: &Shared, o: Opts, log: &Log) {
             let mut sr = q.take().await;
             let rq = http::Request::builder().method(if o.body { "POST" } else { "GET" }).uri("https://a/p").body(()).unwrap();
             let r = call!(log, task, "send_request", "wc", sr.send_request(rq));
-            if last && o.drop_sr {
+            let mut keep = None;
+            if o.clone_sr {
+                if o.drop_sr {
+                    drop(sr); // each clone is dropped as soon as its request is on its way
+                } else {
+                    keep = Some(sr); // the clone lives as long as the task
+                }
+            } else if last && o.drop_sr {
                 drop(sr);
             } else {
                 q.put(sr);
@@ -730,6 +752,10 @@ fn spawn_client(ex: &mut Exec, w: &Shared, o: Opts, log: &Log) {
                 client_flow!(st, st);
                 drop(st);
             }
+            if keep.is_some() {
+                std::future::pending::<()>().await;
+            }
+            drop(keep);
             String::new()
         });
     }
@@ -763,6 +789,8 @@ fn world_summary(w: &Shared, ids: &[u64]) -> String {
         let t = match g.streams.get(id).and_then(|s| s.rx.back().cloned()) {
             Some(Ev::Fin) => "F",
             Some(Ev::Reset(_)) => "R",
+            // `<id>:K`: the receive half failed with StreamErrorIncoming::Unknown: terminal like a reset
+            Some(Ev::Unknown) => "R",
             _ => "-",
         };
         // `s` = the peer sent STOP_SENDING for our send half of this stream
